@@ -37,6 +37,7 @@ var preludeDecls = []preludeDecl{
 		"(assert (forall ((a (Array Int String)) (n Int) (sep String) (i Int)) (! (=> (and (<= 0 i) (< i n)) (str.contains (str_join a n sep) (select a i))) :pattern ((str_join a n sep) (select a i)))))", nil},
 	{"fn_app_ss", "(declare-fun fn_app_ss (Int String) String)", nil},
 	{"str_itoa", "(declare-fun str_itoa (Int) String)", nil},
+	{"str_padright", "(declare-fun str_padright (String Int) String)\n(assert (forall ((s String) (n Int)) (! (str.prefixof s (str_padright s n)) :pattern ((str_padright s n)))))", nil},
 	{"os_getenv", "(declare-fun os_getenv (String) String)", nil},
 	{"path_base", "(declare-fun path_base (String) String)", nil},
 	{"rune_count", "(declare-fun rune_count (String) Int)\n(assert (forall ((s String)) (! (and (<= 0 (rune_count s)) (<= (rune_count s) (str.len s)) (= (= (rune_count s) 0) (= s \"\"))) :pattern ((rune_count s)))))", nil},
